@@ -590,12 +590,13 @@ def check_c06(tier, t0):
                            ASSUME_IC10 + ["function entry labels, arities and has-return-value come from hook H1 (function table)",
                                           "IC10Abs.tla over-approximates IC10Core.tla (argued in its header); writes to the chip's memory with a run-time address do not hit a saved return address"],
                            extra_cov=dict(ap, annotated_call_sites=ncalls),
-                           violation_filter=lambda v: not v.endswith("FALLTHROUGH"))
+                           violation_filter=lambda v: not v.endswith(("FALLTHROUGH", "ENTERED_WITHOUT_CALL")))
 
 
 def check_c07(tier, t0):
-    progs = [(n, s, "term") for n, s in corpus.family("term")] + pick(all_progs(["functions"]), tier, 8)
-    vecs = [cw.REF, cw.opts(use_push_pop_functions=True), cw.opts(tail_call_optimization=True)]
+    progs = [(n, s, "term") for n, s in corpus.family("term")] + all_progs(["functions"])
+    vecs = [cw.REF, cw.opts(use_push_pop_functions=True), cw.opts(tail_call_optimization=True), cw.opts(inline_functions=True),
+            cw.opts(inline_functions=True, tail_call_optimization=True)]
     mat = compile_matrix(progs, vecs)
     items = []
     nent = 0
@@ -618,7 +619,7 @@ def check_c07(tier, t0):
     return run_equiv_check("C07", tier, t0, items, "model_checking", rule + "; plus IC10Abs.tla: the fall-through monitor on ALL paths of every program",
                            ASSUME_IC10 + ["function entry labels come from hook H1", "IC10Abs.tla over-approximates IC10Core.tla (argued in its header)"],
                            extra_cov=dict(ap, annotated_function_entries=nent), expect_mutant=True,
-                           violation_filter=lambda v: v.endswith("FALLTHROUGH") or v.startswith(("EFFECT", "EXTRA", "MISSING")))
+                           violation_filter=lambda v: v.endswith(("FALLTHROUGH", "ENTERED_WITHOUT_CALL")) or v.startswith(("EFFECT", "EXTRA", "MISSING")))
 
 
 # ---------------------------------------------------------------------------------------
